@@ -125,6 +125,9 @@ func C09(t *rapid.T) *world.Scenario {
 		if Pct(t, lbl+"-via2", 12) {
 			rq.Via2 = true // a second transport, open on the same store
 		}
+		if Pct(t, lbl+"-emptyrange", 3) {
+			rq.Header = append(rq.Header, H("Range", "")) // present but empty: no range request
+		}
 		rp, _ := StorableReply(t, h, lbl+"-rp")
 		if sl.vary != "" {
 			rp.Header = append(rp.Header, H("Vary", sl.vary))
